@@ -283,3 +283,15 @@ REGISTRY["C11"]["theorems"] += T("Proofs.C11b", "BLDFM.C11", ["lowpass_coef", "s
 REGISTRY["C03"]["theorems"] += T("Proofs.C03c", "BLDFM.C03", ["pp_padSrc", "halo_eq_padding_fields", "halo_eq_padding", "padOf_pair"]) + WITNESS
 REGISTRY["C03"]["partial_clauses"] = ["float rounding (all three clauses are theorems over exact arithmetic through the whole model pipeline; "
                                       "halo == padding needs the same dx, i.e. xmx' = xmx + 2 px dx exactly, which floats only approximate)"]
+REGISTRY["C07"]["theorems"] += (T("Proofs.C07b", "BLDFM.C07", ["tr_geomOK", "tr_srcSpectrum", "tr_modeCoef", "tr_shift", "transpose_field", "transpose_output", "transposeOf_pair"])
+                                + T("Proofs.C07c", "BLDFM.C07", ["resistNum_velocity", "columnAna_velocity", "vel_modeCoef", "velocity_similarity_field"])
+                                + T("Proofs.C07d", "BLDFM.C07", ["resistNum_length", "columnAna_length", "ls_geom", "length_similarity_field", "length_similarity_output"])
+                                + T("Proofs.C07e", "BLDFM.C07", ["sfreq_partner", "mx_padSrc", "mx_srcSpectrum", "mirrorX_component", "mirrorX_field"])
+                                + REPR + WITNESS)
+REGISTRY["C07"]["partial_clauses"] = ["float rounding",
+    "axis swap, length similarity and velocity similarity are theorems at FIELD level through the whole model pipeline (transpose_field/_output, "
+    "length_similarity_field/_output, velocity_similarity_field); the x-mirror is a theorem for every component apart from the Nyquist one "
+    "(mirrorX_component) and at field level when every slot has a partner (mirrorX_field, odd retained-mode count), dispersion mode with the "
+    "measurement point at the origin; the y-mirror is the x-mirror conjugated by the axis swap (column-level theorem column_mirrorY; field level by the oracle); "
+    "mirrored footprints (mirrored tower) by the oracle",
+    "velocity similarity needs the background divided by the same factor (a non-zero background is not scaled by the flow) - stated so in the theorem"]
